@@ -135,6 +135,35 @@ theorem table_reach_certified (r : Role) (m : Nat) :
     callers along calls on `this`; functions handing out references / pointers / `Eigen::Ref` get none) -/
 theorem table_locks_certified : table.locksCertifiedB = true := locks_certified
 
+/-! ### thread confinement of the user's model objects (the skip path stops at the flags) -/
+
+/-- General (every table): a member no controller-reachable function has a row for is never accessed
+    by the controller thread, in any interleaving that conforms to the table. -/
+theorem controller_free_no_access (T : Table) (f : Nat) (h : ControllerFree T f) {tr : List Ev}
+    (hc : Conforms T tr) (pre post : List Ev) (o : Obj) (w s : Bool) :
+    tr ≠ pre ++ Ev.acc .controller (o, f) w s :: post :=
+  BFL.Race.controller_free_no_access T f h hc pre post o w s
+
+/-- **must hold — evaluated on the regenerated table**: the three pseudo-members standing for the state of
+    the user's measurement model (`freeze`, `measure`, `predictedMeasure`, `innovation`), likelihood model
+    (`likelihood`) and particle initialisation (`initialize`) exist, are written by the filtering role, and
+    no function reachable from a control command (`run` … `skip`) has a row for them. -/
+theorem table_model_confined :
+    table.modelConfinedIn (reachClaim .controller) (reachClaim .filter) = true :=
+  model_confined_cert
+
+/-- Consequence: no control command makes the controller thread call into the user's measurement model,
+    likelihood model or particle initialisation — in no conforming interleaving does the controller
+    access their state (in particular `skip("correction", …)` never reaches `freeze()`). -/
+theorem model_confined (f : Nat) (hf : f ∈ table.fieldIds modelStateFields) {tr : List Ev}
+    (hc : Conforms table tr) (pre post : List Ev) (o : Obj) (w s : Bool) :
+    tr ≠ pre ++ Ev.acc .controller (o, f) w s :: post := by
+  have h := model_confined_cert
+  unfold Table.modelConfinedIn at h
+  simp only [Bool.and_eq_true, List.all_eq_true] at h
+  exact BFL.Race.controller_free_no_access table f
+    (controllerFree_of_cert cert_controller f (h.2 f hf).1) hc pre post o w s
+
 /-- **must hold — the join is certified from the table**: the filtering thread performs no operation on
     a thread handle; the controller spawns only in `boot()`, joins only in `wait()`, and otherwise only
     asks `joinable()` / queries — no function of either role detaches, moves, swaps or reassigns the
